@@ -194,6 +194,12 @@ def ev_attribute(st, n):
         g = B.lookup_module_attr(st, n.value.id, n.attr)
         if g is not None:
             return g
+    if isinstance(n.value, ast.Attribute) and isinstance(n.value.value, ast.Name) \
+            and n.value.value.id not in st.locals:
+        # function of a sub-module under contract, e.g. os.path.exists
+        key = '%s.%s.%s' % (n.value.value.id, n.value.attr, n.attr)
+        if key in R.CONTRACTS:
+            return Val(T.FN, FnV('func', key))
     obj = ev(st, n.value)
     return get_attr(st, obj, n.attr, n)
 
@@ -521,6 +527,17 @@ def exec_stmt(st, s):
 
 def ex_expr(st, s):
     if isinstance(s.value, ast.Constant) and isinstance(s.value.value, str):
+        return
+    if isinstance(s.value, ast.Yield):
+        # generator function: modelled as the list of the values it yields when consumed to exhaustion
+        # (eager; the consumer must not share state with the generator -- recorded as an assumption)
+        out = st.locals.get('_yielded')
+        if out is None:
+            raise Undecided('yield outside a generator contract at line %s' % st.lineno)
+        v = ev(st, s.value.value) if s.value.value is not None else NONE_VAL()
+        et = out.t.args[0]
+        seq = st.list_seq(out.z, et)
+        st.list_store(out.z, et, SeqV(z3.Store(seq.arr, seq.n, st.coerce(v, et).z), seq.n + 1))
         return
     ev(st, s.value)
 
